@@ -146,7 +146,6 @@ theorem AllP.sub {P : Nat → Prop} {a b : Text} (hb : AllP P b) (h : a.Sublist 
 
 theorem AllP.nil {P : Nat → Prop} : AllP P [] := fun x hx => by simp at hx
 
-theorem before_sub (c : Nat) (s : Text) : (before c s).Sublist s := List.takeWhile_sublist _
 theorem after_sub (c : Nat) (s : Text) : (after c s).Sublist s :=
   (List.tail_sublist _).trans (List.dropWhile_sublist _)
 theorem rbefore_sub (c : Nat) (s : Text) : (rbefore c s).Sublist s := by
